@@ -57,6 +57,7 @@ static void check_serialize(PDU& pdu, Ctx& ctx, const std::string& origin) {
         }
         VCHECK(ctx, !mon.fired, "C02:" + mon.what + ":" + short_cls(mon.layer), chain << ": " << mon.detail << " | " << origin);
     }
+    ctx.result(hash_bytes(out1.data(), out1.size()));  // the bytes written must not depend on uninitialised memory
     VCHECK(ctx, out1.size() == sz, "C02:serialized-size-differs:" + root, chain << ": |serialize()|=" << out1.size() << " size()=" << sz << " | " << origin);
     // state written back by write_serialization must not drift
     uint32_t sz2 = pdu.size();
